@@ -141,13 +141,32 @@ impl<W: io::Write> Compose<W> for uri::Rsync {
     }
 }
 
+/// Reads exactly `len` bytes of data.
+///
+/// The length typically comes from the data itself and must not be trusted:
+/// The buffer grows while data is actually read rather than being allocated
+/// up front.
+fn read_data<R: io::Read>(
+    source: &mut R, len: usize
+) -> Result<Vec<u8>, ParseError> {
+    let mut res = Vec::with_capacity(cmp::min(len, 65536));
+    let read = io::Read::read_to_end(
+        &mut io::Read::take(source, len as u64), &mut res
+    )?;
+    if read != len {
+        return Err(
+            io::Error::from(io::ErrorKind::UnexpectedEof).into()
+        )
+    }
+    Ok(res)
+}
+
 impl<R: io::Read> Parse<R> for uri::Rsync {
     fn parse(source: &mut R) -> Result<Self, ParseError> {
         let len = usize::try_from(u32::parse(source)?).map_err(|_| {
             ParseError::format("URI too large for this system")
         })?;
-        let mut bits = vec![0u8; len];
-        source.read_exact(&mut bits)?;
+        let bits = read_data(source, len)?;
         Self::from_bytes(bits.into()).map_err(|err| {
             ParseError::format(format!("bad URI: {err}"))
         })
@@ -174,8 +193,7 @@ impl<R: io::Read> Parse<R> for uri::Https {
         let len = usize::try_from(u32::parse(source)?).map_err(|_| {
             ParseError::format("URI too large for this system")
         })?;
-        let mut bits = vec![0u8; len];
-        source.read_exact(&mut bits)?;
+        let bits = read_data(source, len)?;
         Self::from_bytes(bits.into()).map_err(|err| {
             ParseError::format(format!("bad URI: {err}"))
         })
@@ -211,8 +229,7 @@ impl<R: io::Read> Parse<R> for Option<uri::Https> {
         let len = usize::try_from(len).map_err(|_| {
             ParseError::format("URI too large for this system")
         })?;
-        let mut bits = vec![0u8; len];
-        source.read_exact(&mut bits)?;
+        let bits = read_data(source, len)?;
         uri::Https::from_bytes(bits.into()).map_err(|err| {
             ParseError::format(format!("bad URI: {err}"))
         }).map(Some)
@@ -239,8 +256,7 @@ impl<R: io::Read> Parse<R> for Bytes {
         let len = usize::try_from(u64::parse(source)?).map_err(|_| {
             ParseError::format("data block too large for this system")
         })?;
-        let mut bits = vec![0u8; len];
-        source.read_exact(&mut bits)?;
+        let bits = read_data(source, len)?;
         Ok(bits.into())
     }
 }
@@ -271,8 +287,7 @@ impl<R: io::Read> Parse<R> for Option<Bytes> {
         let len = usize::try_from(len).map_err(|_| {
             ParseError::format("data block large for this system")
         })?;
-        let mut bits = vec![0u8; len];
-        source.read_exact(&mut bits)?;
+        let bits = read_data(source, len)?;
         Ok(Some(bits.into()))
     }
 }
